@@ -82,6 +82,108 @@ func checkC11(ctx *Ctx) {
 			c11AcrossServers(ctx, i)
 		}
 	}
+	for i := 0; i < ctx.N(16, 64); i++ {
+		if ctx.Mine(i + 3) {
+			ctx.SetCurrent(fmt.Sprintf("C11 default user credentials across a restart %d", i))
+			c11DefaultAcrossRestart(ctx, i)
+		}
+	}
+}
+
+// c11DefaultAcrossRestart: the credentials of the default user are changed at run time (password rotated,
+// second password added, hashed password only, nopass), saved, and the server is restarted with the same
+// configuration (RequirePass and the start-up password). The table of AUTH outcomes for a fixed set of
+// candidate passwords on a new connection must be the same after the restart as before it.
+func c11DefaultAcrossRestart(ctx *Ctx, i int) {
+	root := mkScratch("c11d")
+	defer os.RemoveAll(root)
+	ext := []string{".json", ".yaml"}[i%2]
+	aclFile := filepath.Join(root, "acl"+ext)
+	variant := []string{"rotate", "second-password", "hashed-only", "nopass"}[(i/2)%4]
+	toks := map[string][]string{
+		"rotate":          {">newpw", "<adminpw"},
+		"second-password": {">newpw"},
+		"hashed-only":     {"#" + sha("newpw"), "<adminpw"},
+		"nopass":          {"nopass"},
+	}[variant]
+	candidates := []string{"adminpw", "newpw", "wrong", sha("newpw")}
+	start := func() (*Inst, int) {
+		port := freePort()
+		in, err := NewInst(InstOpts{Extra: append(withTCP(port), sugardb.WithAclConfig(aclFile), sugardb.WithRequirePass(true), sugardb.WithPassword("adminpw"))})
+		if err != nil {
+			return nil, 0
+		}
+		if err := in.StartTCP(port); err != nil {
+			in.Close()
+			return nil, 0
+		}
+		return in, port
+	}
+	outcomes := func(port int) ([]string, string) {
+		var out []string
+		// a fresh connection: may it act without authenticating?
+		c, err := Dial(port)
+		if err != nil {
+			return nil, "dial"
+		}
+		v, _, _ := c.Do("ACL", "WHOAMI")
+		out = append(out, fmt.Sprintf("fresh connection acts=%v", !v.IsError()))
+		c.Close()
+		for _, pw := range candidates {
+			for _, form := range [][]string{{"AUTH", pw}, {"AUTH", "default", pw}, {"HELLO", "2", "AUTH", "default", pw}} {
+				c, err := Dial(port)
+				if err != nil {
+					return nil, "dial"
+				}
+				v, _, err := c.Do(form...)
+				c.Close()
+				if err != nil {
+					return nil, "connection lost at " + Step{Argv: form}.String()
+				}
+				out = append(out, fmt.Sprintf("%s ok=%v", Step{Argv: form}.String(), !v.IsError()))
+			}
+		}
+		return out, ""
+	}
+	in, port := start()
+	if in == nil {
+		ctx.Inconclusive("default-across-restart: server did not start")
+		return
+	}
+	if v, _, crash := in.Do(append([]string{"ACL", "SETUSER", "default"}, toks...)...); crash != "" || v.IsError() {
+		in.Close()
+		ctx.Inconclusive("default-across-restart: SETUSER refused: " + v.String())
+		return
+	}
+	want, why := outcomes(port)
+	in.Do("ACL", "SAVE")
+	in.Close()
+	if why != "" {
+		ctx.Inconclusive("default-across-restart: " + why)
+		return
+	}
+	in2, port2 := start()
+	if in2 == nil {
+		ctx.Violate(Violation{Kind: "startup", Lane: "default-across-restart", What: "the server did not start on the ACL file it had saved (" + variant + ")",
+			Case: map[string]interface{}{"variant": variant, "file": ext}, Key: "c11|default-restart|start"})
+		return
+	}
+	defer in2.Close()
+	got, why := outcomes(port2)
+	ctx.Eval(1)
+	ctx.Class(fmt.Sprintf("default-across-restart|%s|%s", variant, ext))
+	if why != "" || fmt.Sprint(got) != fmt.Sprint(want) {
+		diff := why
+		for k := range want {
+			if why == "" && k < len(got) && got[k] != want[k] {
+				diff = fmt.Sprintf("after the restart: %s; before it: %s", got[k], want[k])
+				break
+			}
+		}
+		ctx.Violate(Violation{Kind: "credentials_not_reproduced", Lane: "default-across-restart",
+			What: fmt.Sprintf("ACL SETUSER default %s; ACL SAVE; restart with the same configuration (RequirePass, start-up password adminpw, %s file): %s", strings.Join(toks, " "), ext, diff),
+			Case: map[string]interface{}{"variant": variant, "file": ext, "before": want, "after": got}, Key: "c11|default-restart|" + variant})
+	}
 }
 
 // c11AcrossServers: "ACL SAVE followed by ACL LOAD or a restart reproduces the same users and rules" — also
@@ -285,8 +387,16 @@ func c11History(ctx *Ctx, hi int) {
 			return false
 		}
 		if requirePass {
-			if v, _, _ := admin.Do("AUTH", "adminpw"); v.IsError() {
-				fail("auth", "the default user could not authenticate with the configured password after (re)start: "+v.String())
+			// with a password the reference says the default user has now (it may have been rotated and saved)
+			pw := "adminpw"
+			if d := tab["default"]; d != nil && !d.Plain["adminpw"] {
+				for _, cand := range keysOfSet(d.Plain) {
+					pw = cand
+					break
+				}
+			}
+			if v, _, _ := admin.Do("AUTH", pw); v.IsError() {
+				fail("auth", fmt.Sprintf("the default user could not authenticate with its password %q after (re)start: %s", pw, v.String()))
 				return false
 			}
 		}
@@ -398,13 +508,27 @@ func c11History(ctx *Ctx, hi int) {
 					cur.Enabled = false
 				}
 			}
-			switch r.Intn(7) {
-			case 0:
+			rotate := u == "default" && requirePass && r.Intn(2) == 0
+			if rotate {
+				// rotate the default user's password at run time: a new one in, the start-up one out (or back in)
+				if cur.Plain["adminpw"] {
+					p := pws[r.Intn(len(pws))]
+					toks = append(toks, ">"+p, "<adminpw")
+					cur.Plain[p], cur.NoPass = true, false
+					delete(cur.Plain, "adminpw")
+				} else {
+					toks = append(toks, ">adminpw")
+					cur.Plain["adminpw"], cur.NoPass = true, false
+				}
+			}
+			switch sel := r.Intn(7); {
+			case rotate:
+			case sel == 0:
 				if u != "default" {
 					toks = append(toks, "nopass")
 					cur.NoPass, cur.Plain, cur.Hash = true, map[string]bool{}, map[string]bool{}
 				}
-			case 1:
+			case sel == 1:
 				if u != "default" {
 					toks = append(toks, "resetpass")
 					cur.NoPass, cur.Plain, cur.Hash = false, map[string]bool{}, map[string]bool{}
@@ -498,6 +622,13 @@ func c11History(ctx *Ctx, hi int) {
 			want := authOK(tab, u, pw)
 			v, _, err := c.c.Do(args...)
 			if err != nil {
+				if _, exists := tab[c.user]; !exists || c.doomed {
+					// the connection of a deleted user: the server closes it when its reader notices (see probe)
+					c.c.Close()
+					*c = *newConn()
+					trace = append(trace, desc+" (connection of a deleted user, closed by the server; reconnected)")
+					continue
+				}
 				fail("auth", desc+": connection lost: "+err.Error())
 				return
 			}
